@@ -110,6 +110,8 @@ def run_shard(shard, ctx):
                 if kind == "cowd" and fill == ZERO:
                     continue
                 run_case({"geom": g, "ext": kind, "fill": fill}, ctx)
+            # and over 26 MiB of allocated grains stored in guest order (one physically contiguous run)
+            run_case({"geom": g, "ext": kind, "fill": "dense"}, ctx)
         return
     if g["kind"] == "tuned":
         for lba in (True, False):
@@ -173,6 +175,8 @@ def run_case(case, ctx):
         n = 420  # 420 x 64 KiB = 26 MiB
         states = [DATA] + [case["fill"]] * (n - 3) + [DATA, DATA]
         slots = [1] + [None] * (n - 3) + [0, 2]
+        if case["fill"] == "dense":
+            states, slots = [DATA] * n, list(range(n))
         capacity = n * grain - 5
         size = capacity * 512
         if case["ext"] == "hosted":
@@ -184,7 +188,7 @@ def run_case(case, ctx):
         disk = B.model(states, grain, capacity)
         ctx.model(case)
         ctx.nontrivial += 1
-        ctx.outcome("zero-below-base" if case["fill"] == HOLE else "zero@L1")
+        ctx.outcome("zero-below-base" if case["fill"] == HOLE else "data@L1" if case["fill"] == "dense" else "zero@L1")
         reqs = [(0, size), (65536 - 512, size - 65536), (70000, 20 << 20), (size - (9 << 20), 9 << 20)]
         sreqs = [(0, capacity), (100, capacity - 200)]
         states = slots = srcs = full_states = full_slots = None
